@@ -1,0 +1,32 @@
+//go:build verif
+
+package compression
+
+// Contracts for the text form of the mode enumerations of this package
+// (property C37: "every mode written as text is read back as the same
+// value"). Comment-only file: compiled only under the "verif" build tag,
+// contains no code. The "//@" lines are read by govc.
+//
+// For every supported (named, non-default) value v with documented name N:
+// the marshalling method writes v as exactly the bytes of N and reports no
+// error [written]; UnmarshalText, given exactly the bytes of N, reports no
+// error and stores v [readback]; it accepts nothing but supported values
+// [accepted] and leaves the destination alone when it fails [rejected]. The
+// round trip "UnmarshalText(MarshalText(v)) yields v and no error" is the
+// instance of [readback] for the bytes that [written] describes.
+
+// textis(b, s): the byte slice b spells the string s.
+//@ pred textis(b, s) = len(b) == len(s) && forall i in 0..len(s) :: b[i] == s[i]
+
+//@ func (Algorithm).MarshalText
+//@   ensures[written] a == Algorithm_AlgorithmNone ==> result1 == nil && textis(result0, "none")
+//@   ensures[written] a == Algorithm_AlgorithmDeflate ==> result1 == nil && textis(result0, "deflate")
+//@   ensures[written] a == Algorithm_AlgorithmZstandard ==> result1 == nil && textis(result0, "zstandard")
+
+//@ func (*Algorithm).UnmarshalText
+//@   requires a != nil
+//@   ensures[readback] textis(textBytes, "none") ==> result == nil && deref(a) == Algorithm_AlgorithmNone
+//@   ensures[readback] textis(textBytes, "deflate") ==> result == nil && deref(a) == Algorithm_AlgorithmDeflate
+//@   ensures[readback] textis(textBytes, "zstandard") ==> result == nil && deref(a) == Algorithm_AlgorithmZstandard
+//@   ensures[accepted] result == nil ==> deref(a) == Algorithm_AlgorithmNone || deref(a) == Algorithm_AlgorithmDeflate || deref(a) == Algorithm_AlgorithmZstandard
+//@   ensures[rejected] result != nil ==> deref(a) == old(deref(a))
